@@ -6,6 +6,8 @@ export GOFLAGS=-mod=mod GOPROXY=off GOSUMDB=off GOTOOLCHAIN=local; unset GOWORK
 res=${1:-/tmp/seed_confirm.txt}; : > "$res"
 for id in "${@:2}"; do
   wt=/tmp/seed_$id
+  # (one test of the suite writes to the temp directory: a private one per worktree, so that parallel confirmations do not collide)
+  mkdir -p /tmp/seed_$id.tmp; export TMPDIR=/tmp/seed_$id.tmp
   for m in /tmp/seed_$id.out/m*; do
     [ -f "$m/patch.diff" ] || continue
     n=$(basename $m)
